@@ -132,6 +132,18 @@ Definition stamp (svcs : gmap N svc) (c : chk) : option chk :=
 
 Definition is_some {A} (o : option A) : bool := match o with Some _ => true | None => false end.
 
+(* ensureCheckTxn: "if existing != nil && existing.IsSame(hc) { modified = false }" — a check
+   that IsSame as the stored row is NOT written, so a registration that differs only in the fields
+   IsSame ignores is dropped by the servers as well *)
+Definition keep_same (old : option chk) (r : chk) : chk :=
+  match old with Some o => if chk_isame o r then o else r | None => r end.
+
+Definition reg_chk (svcs : gmap N svc) (onew : option chk) (oold : option chk) : option chk :=
+  match onew with
+  | Some d => match stamp svcs d with Some r => Some (keep_same oold r) | None => oold end
+  | None => oold
+  end.
+
 (* Catalog.Register applied: node, then service, then checks, in ONE transaction (an error
    aborts everything) *)
 Definition reg_svcs (sv : option (N * svc)) (m : gmap N svc) : gmap N svc :=
@@ -141,7 +153,7 @@ Definition cat_register (ni : N) (skip : bool) (sv : option (N * svc)) (chks : g
   : option cat :=
   let svcs' := reg_svcs sv (c_svcs c) in
   if forallb (fun kc : N * chk => is_some (stamp svcs' (snd kc))) (map_to_list chks)
-  then Some (Cat (reg_node ni skip (c_node c)) svcs' (omap (stamp svcs') chks ∪ c_chks c))
+  then Some (Cat (reg_node ni skip (c_node c)) svcs' (merge (reg_chk svcs') chks (c_chks c)))
   else None.
 
 (* state.DeleteService: nothing when the service is absent, else its checks go with it *)
